@@ -356,7 +356,7 @@ func genE2E(t *rapid.T) e2eCase {
 var chkE2E = harness.Define("builder-device-extract", genE2E, runE2E)
 
 func TestRandom(t *testing.T) {
-	chkE2E.Rapid(t, harness.Pick(2500, 20000))
+	chkE2E.Rapid(t, harness.Pick(2500, 150000))
 }
 
 // TestReadme: the README scenario shape at the window edges, every type once, both functions and framings.
